@@ -585,7 +585,7 @@ static void run(const vf::Args &args, Report &rep)
     uint64_t n = args.getu("random", args.thorough() ? 400000000ULL : 6000000ULL) / args.nshards;
     uint64_t chunk = 100000;
     uint64_t nchunks = (n + chunk - 1) / chunk;
-    fc.group = 1; fc.case_timeout = 600; fc.family = "inv_random";
+    fc.group = 1; fc.case_timeout = args.thorough() ? 600 : 90; fc.family = "inv_random";
     uint64_t base_seed = vf::mix64(args.seed, 0x1000 + args.shard);
     vf::run_forked(rep, nchunks, fc,
         [&](uint64_t i) { return J().str("op", "inv/div/exp random chunk").u("chunk", i).u("seed", base_seed).done(); },
